@@ -11,8 +11,10 @@ import (
 
 	"github.com/pokt-network/pocket-core/app"
 	sdk "github.com/pokt-network/pocket-core/types"
+	appsTypes "github.com/pokt-network/pocket-core/x/apps/types"
 	"github.com/pokt-network/pocket-core/x/auth"
 	authTypes "github.com/pokt-network/pocket-core/x/auth/types"
+	govTypes "github.com/pokt-network/pocket-core/x/gov/types"
 	nodesTypes "github.com/pokt-network/pocket-core/x/nodes/types"
 
 	"verif/harness"
@@ -210,7 +212,7 @@ func TestC16(t *testing.T) {
 			"signature, the Any and the message; repeated scalar; explicit default; reordered fields; non-minimal varints for outer length, tag, inner length, value) — only re-encodings that "+
 			"the real decoder accepts AND that decode to a tx with identical sign bytes, signature and fee are used. Oracle: every resubmission has code != 0 and the recipient was credited "+
 			"exactly once over the whole history. non-trivial = at least one accepted re-encoding with different bytes and equal sign bytes was resubmitted",
-		map[string]float64{"reencoding-accepted-by-decoder": 0.9, "same-block-duplicate": 0.9, "later-block-duplicate": 0.9},
+		map[string]float64{"reencoding-accepted-by-decoder": 0.9, "same-block-duplicate": 0.9, "later-block-duplicate": 0.9, "original-fails-in-handler": 0.2},
 		func(rt *rapid.T, c *harness.Case) {
 			w := chain.GenWorld(rt)
 			c.Opf("%s", w.Describe())
@@ -225,9 +227,23 @@ func TestC16(t *testing.T) {
 			if rapid.IntRange(0, 4).Draw(rt, "negEntropy") == 0 {
 				entropy = -entropy
 			}
-			msg := &nodesTypes.MsgSend{FromAddress: chain.Addr(from), ToAddress: to, Amount: sdk.NewInt(amt)}
+			var msg sdk.ProtoMsg = &nodesTypes.MsgSend{FromAddress: chain.Addr(from), ToAddress: to, Amount: sdk.NewInt(amt)}
+			tKind := rapid.SampledFrom([]string{"send", "send", "daoTransferByNonOwner", "appTransferByNonApp"}).Draw(rt, "tKind")
+			switch tKind {
+			case "daoTransferByNonOwner":
+				// authenticates (the sender names itself), pays the fee, then fails in the gov handler: its only effect is the fee
+				if !from.PublicKey().Equals(w.Spec.DAOOwner.PublicKey()) {
+					msg = &govTypes.MsgDAOTransfer{FromAddress: chain.Addr(from), ToAddress: to, Amount: sdk.NewInt(amt), Action: govTypes.DAOTransferString}
+					c.Label("original-fails-in-handler")
+				} else {
+					tKind = "send"
+				}
+			case "appTransferByNonApp":
+				msg = &appsTypes.MsgStake{PubKey: from.PublicKey(), Chains: nil, Value: sdk.ZeroInt()}
+				c.Label("original-fails-in-handler")
+			}
 			T := chain.SignTx(w.Spec.ChainID, msg, chain.DefaultFee, memo, entropy, from)
-			c.Opf("T = send %d %s->new memo=%q entropy=%d (%d bytes)", amt, w.KeyName(from), memo, entropy, len(T))
+			c.Opf("T = %s amt=%d by %s memo=%q entropy=%d (%d bytes)", tKind, amt, w.KeyName(from), memo, entropy, len(T))
 			dec := auth.DefaultTxDecoder(app.Codec())
 			orig, derr := dec(T, 10)
 			if derr != nil {
@@ -278,11 +294,16 @@ func TestC16(t *testing.T) {
 			}
 			sameBlock, nextBlock, later := pick("inSameBlock"), pick("inNextBlock"), pick("later")
 			credited := func() sdk.BigInt { return n.Balance(to) }
+			payer := func() sdk.BigInt { return n.Balance(chain.Addr(from)) }
 			deliver := func(where string, name string, bz []byte) {
-				before := credited()
+				before, pbefore := credited(), payer()
 				r := n.DeliverTx(bz)
-				after := credited()
+				after, pafter := credited(), payer()
 				c.Opf("resubmit %s in %s -> %d/%s", name, where, r.Code, r.Codespace)
+				if name == "identical-bytes" && r.Code != 0 && !pafter.Equal(pbefore) {
+					// a rejected resubmission of the identical bytes must not even charge the fee again (the first delivery did)
+					c.Violation("C16/identical-bytes/fee-charged-again", "resubmission of the identical bytes of T (%s) in %s was rejected (%d/%s) but the signer's balance went %s -> %s: the transaction took effect (its fee) a second time", tKind, where, r.Code, r.Codespace, pbefore, pafter)
+				}
 				if r.Code == 0 || !after.Equal(before) {
 					sig := "C16/reencoding/byte-different-encoding-took-effect-again"
 					if name == "identical-bytes" {
@@ -324,7 +345,7 @@ func TestC16(t *testing.T) {
 				deliver(fmt.Sprintf("%d blocks later", k+1), v.name, v.bz)
 			}
 			n.Commit(n.EndBlock())
-			if r0.Code == 0 && !base.Equal(sdk.NewInt(amt)) && base.LT(sdk.NewInt(amt)) {
+			if tKind == "send" && r0.Code == 0 && !base.Equal(sdk.NewInt(amt)) && base.LT(sdk.NewInt(amt)) {
 				c.Violation("C16/original/not-credited", "T returned code 0 but the recipient holds %s instead of %d", base, amt)
 			}
 		})
